@@ -68,10 +68,14 @@ def new_states():
                 yield {p: Ent(inos[i], 0, k[p], stamps[i][0], stamps[i][1]) for i, p in enumerate(ps)}
 
 
+SPECIAL: dict[int, int] = {}  # inode -> S_IFSOCK / S_IFBLK / S_IFIFO ... for the pair being judged
+
+
 def snap(state, recursive=True, as_bytes=False, root_ent=None):
     from watchdog.utils.dirsnapshot import DirectorySnapshot
 
     v = VFS(as_bytes=as_bytes) if root_ent is None else VFS(as_bytes=as_bytes, root_ent=root_ent)
+    v.special = dict(SPECIAL)
     v.set_state(state)
     return DirectorySnapshot(v.root, recursive=recursive, stat=v.stat, listdir=v.listdir), v
 
@@ -97,6 +101,20 @@ def judge_pair(b: Batch, s0, s1, recursive, as_bytes, tag, root0=None, root1=Non
     d = DirectorySnapshotDiff(ref, new)
     errs = difflaws.check_diff(ref, new, d)
     b.count("diffs_judged")
+    if SPECIAL:
+        # sockets, block devices, FIFOs are not directories: the snapshot must say so and the diff must list them as files
+        b.count("pairs_with_special_files")
+        for sn, st_ in ((ref, s0), (new, s1)):
+            for rel_, e_ in st_.items():
+                if e_.ino in SPECIAL and not e_.isdir:
+                    for p_ in sn.paths:
+                        if sn.inode(p_) == (e_.ino, e_.dev) and sn.isdir(p_):
+                            errs.append(("kind", f"{p_!r} is a special file (mode {SPECIAL[e_.ino]:o}) but isdir() says directory"))
+        for name_ in ("dirs_created", "dirs_deleted"):  # (a modified entry may be listed under its old or its new path)
+            for p_ in getattr(d, name_):
+                sn = new if name_ != "dirs_deleted" else ref
+                if p_ in sn.paths and sn.inode(p_)[0] in SPECIAL and not any(e_.isdir for e_ in list(s0.values()) + list(s1.values()) if e_.ino == sn.inode(p_)[0]):
+                    errs.append(("kind", f"{name_} lists the special file {p_!r}"))
     dm = DirectorySnapshotDiff(new, ref)
     errs += difflaws.check_mirror(ref, new, d, dm)
     errs += [("mirror-" + l, m) for l, m in difflaws.check_diff(new, ref, dm)]
@@ -199,7 +217,7 @@ def judge_entrypoints(b: Batch, s0, s1, recursive):
                 b.violation("difflaw:cm:snapshots", "ContextManager snapshots differ from direct snapshots", witness=wit, replay_spec=rs)
 
 
-NAMES3 = ["a", "b", "c"]
+NAMES3 = ["a", "b", "c", "e\u0301"]  # the last one is not in Unicode normal form C: still its own name
 
 
 def random_state(r: random.Random, pool, maxdepth=3, maxn=7, devs=(0,)):
@@ -390,7 +408,26 @@ def run_batch(spec):
                 break
             devs = (0, 1) if r.random() < 0.3 else (0,)
             s0 = random_state(r, pool, devs=devs)
+            if len(devs) == 2 and r.random() < 0.5:
+                # the same inode NUMBER on two devices (mount points routinely have it) names two different entries
+                on0 = [(p_, e_) for p_, e_ in s0.items() if e_.dev == 0]
+                on1 = [(p_, e_) for p_, e_ in s0.items() if e_.dev == 1]
+                if on0 and on1:
+                    (p0_, e0_), (p1_, e1_) = r.choice(on0), r.choice(on1)
+                    if not any(e_.ino == e0_.ino and e_.dev == 1 for e_ in s0.values()):
+                        s0[p1_] = e1_._replace(ino=e0_.ino)
+                        b.count("states_with_same_ino_on_two_devices")
             s1 = mutate_state(r, s0, pool) if r.random() < 0.8 else random_state(r, pool, devs=devs)
+            SPECIAL.clear()
+            if r.random() < 0.15:
+                import stat as _st
+
+                for e_ in list(s0.values()) + list(s1.values()):
+                    if not e_.isdir and r.random() < 0.5:
+                        SPECIAL[e_.ino] = r.choice([_st.S_IFSOCK, _st.S_IFBLK, _st.S_IFIFO, _st.S_IFCHR])
+                for e_ in list(s0.values()) + list(s1.values()):
+                    if e_.isdir:
+                        SPECIAL.pop(e_.ino, None)
             rec = r.random() < 0.7
             root0 = root1 = None
             if r.random() < 0.15:
